@@ -118,7 +118,7 @@ impl Display for Formatted<'_, BinOp> {
             self.value.a.format(self.format).fmt(out)?;
             self.value.b.format(self.format).fmt(out)
         } else {
-            use Operator::{Div, Minus, Plus};
+            use Operator::{Div, Minus, Multiply, Plus};
             fn is_op(v: &Value) -> Option<Operator> {
                 match v {
                     Value::BinOp(op) => Some(op.op),
@@ -162,7 +162,16 @@ impl Display for Formatted<'_, BinOp> {
                 }
                 (op, v) => (op, v.clone()),
             };
+            // A sum as the left operand of a product needs parentheses.
+            let a_paren = matches!(op, Multiply | Div)
+                && matches!(is_op(&self.value.a), Some(Plus | Minus));
+            if a_paren {
+                out.write_char('(')?;
+            }
             self.value.a.format(self.format).fmt(out)?;
+            if a_paren {
+                out.write_char(')')?;
+            }
             if self.value.s1 {
                 out.write_char(' ')?;
             }
